@@ -150,4 +150,25 @@ theorem C11_operands_are_runtime_values (prog : List Ins) (e : Avm.Env) (s s' : 
 example (valOf : Nat × Nat → Avm.Val) (st : List Avm.Val) : OperandValues.VSim valOf [] st :=
   ⟨st, [], by simp, List.Forall₂.nil⟩
 
+/-- THE STACK AST OF A BLOCK DENOTES THE VALUES OF ITS EXECUTION.  For any straight run of the concrete machine through the
+    first `k` instructions (dedicated opcodes) of a block, there is one assignment of values to producer references —
+    (q, j) ↦ the value the block's instruction q pushed as output j — under which, for EVERY instruction of the run, the
+    operand list that `constructAst` (the model of construct_stack_ast) stores for it agrees position by position with
+    the values that instruction really popped from the AVM stack; Unknown operands are values from before the block. -/
+theorem C11_block_operands (prog : List Ins) (e : Avm.Env) (blockIns : List Ins) (pc0 k : Nat) (st : Nat → Avm.State)
+    (hrun : OperandValues.BlockRun prog e blockIns pc0 k st) :
+    ∃ valOf : Nat × Nat → Avm.Val, ∀ j, j < k →
+      List.Forall₂ (OperandValues.Agree valOf) ((constructAst blockIns).argsOf j)
+        ((st j).stack.drop ((st j).stack.length - (blockIns[j]!).op.pops)) := by
+  obtain ⟨valOf, _, hargs⟩ := OperandValues.block_operands prog e blockIns pc0 st k hrun
+  refine ⟨valOf, ?_⟩
+  intro j hj
+  have hjl : j < blockIns.length := by have := hrun.len; omega
+  have : (constructAst blockIns).argsOf j = OperandValues.argsAt blockIns j := by
+    unfold Ast.argsOf
+    rw [OperandValues.constructAst_args]
+    simp [hjl]
+  rw [this]
+  exact hargs j hj
+
 end Tealer.C11
